@@ -2,7 +2,9 @@
 
 Leg M: TLC checks the laws on the specification: Structured.tla on every tree of a bounded
        shape family; LayeredMapping.tla and FormulaSeq.tla on every operation history of
-       bounded length (one state per history).
+       bounded length (one state per history); LayeredHeap.tla (layers are references: a heap of
+       dicts and mappings holding each other) on every history of operations on the object graph,
+       with the snapshotting design (Variant = "splice") refuted.
 Leg R: every enumerated tree / history is replayed into the real objects and alpha(object)
        is compared with the model after the operation(s).
 """
